@@ -114,6 +114,18 @@ func (p *polling) onPollRequest(ctx *types.HttpContext) {
 			},
 		})
 	}
+
+	// the transport may have been closed while this request was on its way in
+	// (the session lookup and this call are not one step): nobody would ever
+	// answer it then, so release it right away
+	if p.ReadyState() == "closed" && p.Writable() {
+		polling_log.Debug("poll request accepted by a closed transport - releasing it")
+		p.Send([]*packet.Packet{
+			{
+				Type: packet.NOOP,
+			},
+		})
+	}
 }
 
 // The client sends a request with data.
@@ -211,6 +223,15 @@ func (p *polling) OnClose() {
 		})
 	}
 	p.Transport.OnClose()
+
+	if p.Writable() {
+		// a poll request was accepted while the transport was closing
+		p.Send([]*packet.Packet{
+			{
+				Type: packet.NOOP,
+			},
+		})
+	}
 }
 
 // Writes a packet payload.
